@@ -555,6 +555,13 @@ def run_check(prop: str, analyse: Callable[[Report], None], tier: str,
     if st_errors and unlisted:
         for m in st_errors:
             print(f'note: {m}')
+    # an instance floor guards against a rule passing vacuously.  When a rule does report a construct
+    # that no list covers, the run is not vacuous: the violation is reported, the floor is a note.
+    floor_msgs = [m for m in rep.errors if m.startswith('rule ') and 'below its floor' in m]
+    if unlisted and rep.errors and len(floor_msgs) == len(rep.errors):
+        for m in floor_msgs:
+            print(f'note: {m}')
+        rep.errors = []
     if rep.errors:
         for m in rep.errors:
             print(f'ANALYSIS-ERROR property={prop} {m}')
